@@ -473,7 +473,8 @@ static int replay_t(Context& cx, const std::vector<std::string>& tok)
     for (auto& o : kOps)
         if (tok[0] == o.name)
             op = &o;
-    if (!op)
+    const bool cmp = tok[0] == "eq" || tok[0] == "ne"; // judged by run_eq on the recorded operand pair
+    if (!op && !cmp)
     {
         printf("REPLAY-SKIP unknown op\n");
         return 0;
@@ -504,6 +505,14 @@ static int replay_t(Context& cx, const std::vector<std::string>& tok)
         if (!zb.empty())
             memcpy(z, zb.data(), std::min(zb.size(), sizeof z));
         ++ran;
+        if (cmp)
+        {
+            const size_t before = cx.violations.size();
+            run_eq<T>(cx, tg, x, y);
+            if (cx.violations.size() != before)
+                ++bad;
+            continue;
+        }
         if (!run_batch<T>(cx, *op, tg, e, x, y, z))
             ++bad;
     }
